@@ -125,9 +125,13 @@ var c15Variants = map[string][]string{
 	"P1": {"ret"},
 }
 
+// a trailing "!" on a chain variant means: sent with ForceProgramming set
+func c15Base(v string) string { return strings.TrimSuffix(v, "!") }
+func c15Force(v string) bool  { return strings.HasSuffix(v, "!") }
+
 func c15Rules(v string) []generictables.Rule {
 	out := []generictables.Rule{}
-	for _, k := range c15Variants[v] {
+	for _, k := range c15Variants[c15Base(v)] {
 		out = append(out, c15Rule(k))
 	}
 	return out
@@ -460,12 +464,19 @@ func (s *c15State) reachable() map[string]bool {
 			}
 			seen[t] = true
 			if v, ok := s.chains[t]; ok {
-				visit(c15Variants[v])
+				visit(c15Variants[c15Base(v)])
 			}
 		}
 	}
 	visit(c15Variants[s.hooks])
 	visit(c15Variants[s.apps])
+	// a force-programmed chain is programmed (with everything it jumps to) even if nothing refers to it
+	for n, v := range s.chains {
+		if c15Force(v) && !seen[n] {
+			seen[n] = true
+			visit(c15Variants[c15Base(v)])
+		}
+	}
 	return seen
 }
 
@@ -636,7 +647,7 @@ func (s *c15State) sendDesired() {
 	}
 	sort.Strings(names)
 	for _, n := range names {
-		s.table.UpdateChain(&generictables.Chain{Name: n, Rules: c15Rules(s.chains[n])})
+		s.table.UpdateChain(&generictables.Chain{Name: n, Rules: c15Rules(s.chains[n]), ForceProgramming: c15Force(s.chains[n])})
 	}
 	s.table.InsertOrAppendRules("FORWARD", c15Rules(s.hooks))
 	s.table.AppendRules("FORWARD", c15Rules(s.apps))
@@ -664,7 +675,7 @@ func c15Apply(s *c15State, e c15Ev) {
 		}
 	case "chain":
 		s.chains[e.Chain] = e.V
-		s.table.UpdateChain(&generictables.Chain{Name: e.Chain, Rules: c15Rules(e.V)})
+		s.table.UpdateChain(&generictables.Chain{Name: e.Chain, Rules: c15Rules(e.V), ForceProgramming: c15Force(e.V)})
 	case "rmchain":
 		delete(s.chains, e.Chain)
 		s.table.RemoveChainByName(e.Chain)
@@ -707,7 +718,9 @@ func c15Enabled(s *c15State, depth int) []c15Ev {
 	for _, v := range []string{"A0", "A1", "A2", "A3", "A4"} {
 		add(c15Ev{Op: "chain", Chain: "cali-A", V: v})
 	}
-	for _, v := range []string{"B0", "B1", "B2"} {
+	// (cali-B also with the ForceProgramming flag: set and cleared by separate UpdateChain calls, before
+	// or after cali-A starts/stops jumping to it)
+	for _, v := range []string{"B0", "B1", "B2", "B1!", "B2!"} {
 		add(c15Ev{Op: "chain", Chain: "cali-B", V: v})
 	}
 	for _, c := range []string{"cali-A", "cali-B"} {
@@ -819,7 +832,7 @@ func (s *c15State) computeKey() string {
 	b.WriteString("|rc:" + strings.Join(rc, ","))
 	var dn []string
 	for n, c := range t.chainNameToChain {
-		dn = append(dn, n+"="+strings.Join(NewIptablesRenderer("").RuleHashes(c, &environment.Features{}), ","))
+		dn = append(dn, fmt.Sprintf("%s=%s/%v", n, strings.Join(NewIptablesRenderer("").RuleHashes(c, &environment.Features{}), ","), c.ForceProgramming))
 	}
 	sort.Strings(dn)
 	b.WriteString("|def:" + strings.Join(dn, ";"))
@@ -946,7 +959,7 @@ func TestVerif_C15(t *testing.T) {
 	logrus.SetLevel(logrus.PanicLevel)
 	logrus.SetOutput(c15Discard{})
 	vk.Run(t, "C15", func(c *vk.Ctx) {
-		c.Rule("states = (kernel filter table of the repo's iptables-save/restore model, rules other software put there, desired Felix chains/hooks, Table's internal view: refcounts, dirty sets, cached hashes/full rules, in-sync flag, refresh-due) over chains cali-A (5 contents incl. empty and a jump to cali-B), cali-B (3 incl. empty), FORWARD hooks (4 variants) + always-appended rules (2), 5 starting kernels (empty / foreign rules+chain / plus leftovers of an earlier Felix / each already synced); " +
+		c.Rule("states = (kernel filter table of the repo's iptables-save/restore model, rules other software put there, desired Felix chains/hooks, Table's internal view: refcounts, dirty sets, cached hashes/full rules, in-sync flag, refresh-due) over chains cali-A (5 contents incl. empty and a jump to cali-B), cali-B (3 incl. empty, two of them also with the ForceProgramming flag), FORWARD hooks (4 variants) + always-appended rules (2), 5 starting kernels (empty / foreign rules+chain / plus leftovers of an earlier Felix / each already synced); " +
 			"transitions = one API call, Apply (optionally with the 1st/2nd iptables-save failing in 4 ways or the 1st/2nd iptables-restore failing, and/or another program editing the table between Felix's read and write), an edit by another program (10 kinds), clock past the refresh interval, restart; " +
 			"every state is followed by fault-free probe Applies (plain and with forced re-read); non-trivial = Apply that wrote, was faulted or raced")
 		c.Assume("the kernel/iptables-restore behaves like felix/iptables/testutils.MockDataplane, extended in the harness with atomic rejection (roll back + error) of transactions that the real kernel refuses: delete/replace of a missing rule, insert into a missing chain, -X of a non-empty chain, any jump left pointing at a missing chain")
